@@ -222,6 +222,17 @@ def bases_first_premises(ctx, rep, rule):
             if call_name(c) == fi.name and len(c.args) >= 2 and is_name(c.args[1], result):
                 rec.append((n.id, c))
     where = ctx.where(fi, fi.node)
+    if not rec:
+        it = _iterative_preorder(ctx, fi, g, layer, result)
+        if it is not None:
+            good, why = it
+            rep.check(ok and good, rule, 'gather_layers: append(layer)', why,
+                      key='gather_layers:append', where=where, func=fi.qualname)
+            rep.check(good, rule, 'gather_layers: pre-order over all bases, every occurrence kept '
+                      '(explicit stack: every popped layer is appended and all its bases are pushed)',
+                      why, key='gather_layers:preorder', where=where, func=fi.qualname)
+            appends, loops, rec = [], [], []
+            return _order_by_bases_premises(ctx, rep, rule)
     rep.check(ok and len(appends) >= 1, rule, 'gather_layers: append(layer)',
               'gather_layers no longer appends its layer argument to the result list',
               key='gather_layers:append', where=where, func=fi.qualname)
@@ -255,6 +266,77 @@ def bases_first_premises(ctx, rep, rule):
             why = 'the layer is appended after its bases were visited (not a pre-order walk)'
     rep.check(good, rule, 'gather_layers: pre-order over all bases, every occurrence kept', why,
               key='gather_layers:preorder', where=where, func=fi.qualname)
+    return _order_by_bases_premises(ctx, rep, rule)
+
+
+def _iterative_preorder(ctx, fi, g, layer, result):
+    """gather_layers written with an explicit stack: ``S = [layer]; while S: cur = S.pop();
+    result.append(cur) [unless cur is object]; S.extend(<all of cur.__bases__>)``.  Returns
+    (good, why) or None when the function is not of that shape."""
+    stacks = [n for n in g.nodes if n.kind == 'stmt' and isinstance(n.ast, ast.Assign) and
+              len(n.ast.targets) == 1 and isinstance(n.ast.targets[0], ast.Name) and
+              isinstance(n.ast.value, ast.List) and len(n.ast.value.elts) == 1 and
+              is_name(n.ast.value.elts[0], layer)]
+    if len(stacks) != 1:
+        return None
+    S = stacks[0].ast.targets[0].id
+    heads = [n for n in g.nodes if n.kind == 'test' and isinstance(n.stmt, ast.While) and
+             (is_name(n.ast, S) or S in norm(n.ast))]
+    pops = [n for n in g.nodes if n.kind == 'stmt' and isinstance(n.ast, ast.Assign) and
+            isinstance(n.ast.value, ast.Call) and isinstance(n.ast.value.func, ast.Attribute) and
+            n.ast.value.func.attr in ('pop', 'popleft') and is_name(n.ast.value.func.value, S) and
+            isinstance(n.ast.targets[0], ast.Name)]
+    if len(heads) != 1 or len(pops) != 1:
+        return None
+    h, p = heads[0], pops[0]
+    cur = p.ast.targets[0].id
+    apps = {n.id for n in g.nodes if n.kind == 'stmt' and any(
+        isinstance(c.func, ast.Attribute) and c.func.attr == 'append' and is_name(c.func.value, result)
+        and len(c.args) == 1 and is_name(c.args[0], cur) for c in calls_in(n.ast))}
+    pushes = set()
+    for n in g.nodes:
+        if n.kind != 'stmt':
+            continue
+        for c in calls_in(n.ast):
+            if isinstance(c.func, ast.Attribute) and is_name(c.func.value, S) and c.args:
+                if c.func.attr == 'extend' and (cur + '.__bases__') in norm(c.args[0]) and \
+                        not any(isinstance(x, (ast.comprehension, ast.Slice)) and
+                                not is_reverse_slice(x) for x in ast.walk(c.args[0])
+                                if isinstance(x, ast.Slice)) and \
+                        not any(isinstance(x, ast.comprehension) and x.ifs for x in ast.walk(c.args[0])):
+                    pushes.add(n.id)
+    # a for loop over cur.__bases__ that pushes each base unconditionally
+    for lp in [n for n in g.nodes if n.kind == 'for' and
+               dotted(strip_reverse(n.ast)[0]) == cur + '.__bases__']:
+        lv = lp.stmt.target.id if isinstance(lp.stmt.target, ast.Name) else None
+        ins = {n.id for n in g.nodes if n.kind == 'stmt' and any(
+            isinstance(c.func, ast.Attribute) and c.func.attr == 'append' and is_name(c.func.value, S)
+            and len(c.args) == 1 and is_name(c.args[0], lv) for c in calls_in(n.ast))}
+        body = [d for d, k in g.succ[lp.id] if k == 'true']
+        if ins and lp.id not in g.reach(body, avoid=ins, include_start=True):
+            pushes.add(lp.id)
+    if not apps or not pushes:
+        return False, 'the walk with the explicit stack %s does not append every popped layer and ' \
+            'push all its bases' % S
+    obj_ok = _object_edges(g, cur)
+    start = [d for d, k in g.succ[p.id] if k != 'exc']
+    normal = lambda s_, d_, k_: k_ != 'exc' and obj_ok(s_, d_, k_)   # noqa: E731
+    r1 = g.reach(start, avoid=apps, include_start=True, edge_ok=normal)
+    if h.id in r1 or g.exit in r1:
+        return False, 'a popped layer can be dropped without being appended (other than object)'
+    r2 = g.reach(start, avoid=pushes, include_start=True, edge_ok=lambda s_, d_, k_: k_ != 'exc')
+    if h.id in r2 or g.exit in r2:
+        return False, 'the bases of a popped layer are not always pushed: a base can be skipped'
+    # the loop runs until the stack is empty (no other exit)
+    for n in g.nodes:
+        if n.kind == 'stmt' and isinstance(n.ast, (ast.Break, ast.Return)) and \
+                any(x is n.ast for x in ast.walk(h.stmt)):
+            return False, 'the walk can stop before the stack is empty'
+    return True, ''
+
+
+def _order_by_bases_premises(ctx, rep, rule):
+    m = ctx.model
     # ---- order_by_bases
     fo = m.func('runner.order_by_bases')
     go = ctx.cfg(fo)
